@@ -31,6 +31,8 @@ SEEDS = [
     '@charset "utf-8";@import "i0.css";@namespace n1 "urn:n1";n1|s0{top:0}@media print{m0{top:0}}',
     '@namespace "urn:dflt";@namespace n2 "urn:n2";s0[n2|a]{top:0}@page{margin:0}/*c0*/',
     '@import "i0.css";@unk0;@namespace n1 "urn:n1";@media tv{n1|m0{top:0}@media print{n1|m9{top:0}}}@font-face{font-family:f0}',
+    # round 8: declarations that read a variable nobody has defined yet (an @variables rule that comes and goes shows in them)
+    's0{color:var(v1);top:0}@media tv{m0{left:var(v1)}}',
 ]
 LEVEL = {'CSSCharsetRule': 0, 'CSSImportRule': 1, 'CSSNamespaceRule': 2, 'CSSStyleRule': 3, 'CSSMediaRule': 3, 'CSSPageRule': 3, 'CSSFontFaceRule': 3}
 KIND_LEVEL = {'charset': 0, 'import': 1, 'namespace': 2, 'style': 3, 'media': 3, 'page': 3, 'fontface': 3}
@@ -78,7 +80,7 @@ def structure_problems(cssutils, sheet, removed=()):
                 probs.append('media.parentRule of %s is %r' % (cls, r.media.parentRule))
             if cls == 'CSSMediaRule':
                 inner = type_names(r.cssRules)
-                for bad in ('CSSCharsetRule', 'CSSImportRule', 'CSSNamespaceRule', 'CSSFontFaceRule', 'MarginRule'):
+                for bad in ('CSSCharsetRule', 'CSSImportRule', 'CSSNamespaceRule', 'CSSFontFaceRule', 'MarginRule', 'CSSVariablesRule'):
                     if bad in inner:
                         probs.append('@media holds a %s' % bad)
                 if depth < 3:
@@ -224,7 +226,7 @@ def random_op(rng, sheet, focus=None):
     if k == 'insert-list':
         # a CSSRuleList of 2-3 rule objects, into the sheet or into a nested rule list
         where = 'sheet' if rng.random() < 0.5 else rng.randrange(4)
-        members = [[rng.choice(['style', 'style', 'media', 'comment', 'page', 'fontface', 'import', 'unknown', 'margin', 'namespace', 'foreign-ns', 'foreign-ns']), rng.randrange(6)] for _ in range(rng.randint(2, 3))]
+        members = [[rng.choice(['style', 'style', 'media', 'comment', 'page', 'fontface', 'import', 'unknown', 'margin', 'namespace', 'foreign-ns', 'foreign-ns', 'variables', 'variables']), rng.randrange(6)] for _ in range(rng.randint(2, 3))]
         return [k, where, members, rng.randint(0, n if where == 'sheet' else 2)]
     if k == 'sheet-text':
         return [k, rng.choice(SEEDS + ['s1{top:0} @import "late.css";', 'a{} b{} @namespace late "u";', 'zz|a{top:0}', 's1{top:0}@charset "ascii";'])]
